@@ -167,7 +167,7 @@ contract(
     lets={'data0': 'data'},
     loops={0: {'subviews': {'data': 'data0'}, 'inv': ['len(data) <= len(data0)'], 'decreases': 'len(data)'}},
     raises=[{'exc': 'Notify', 'cover': False}, {'exc': 'IndexError', 'cover': False}, {'exc': 'ValueError', 'cover': False}],
-    ensures=['result is self', 'len(data) == 0'],  # the whole attribute block is walked
+    ensures=['result is self', 'len(final(data)) == 0'],  # the whole attribute block is walked
     notes=['termination and recursion depth: the walk is a loop (depth 1) whose variant len(data) strictly decreases; iterations <= len(data)/3'],
     canaries=[('while data:', 'while len(data) > 1:')],
 )
